@@ -71,7 +71,29 @@ FORBIDDEN_METHODS = {
 }
 
 
+# Process-wide settings: they cannot import / resolve / call anything (inert for C01), but they change how LATER
+# queries behave (C13: answers are functions of the bytes alone), so C13 judges them separately.
+PROCESS_STATE_SETTERS = {
+    "sys.setrecursionlimit", "sys.setswitchinterval", "sys.set_int_max_str_digits", "sys.setdlopenflags", "sys.set_asyncgen_hooks",
+    "sys.set_coroutine_origin_tracking_depth", "sys.setcheckinterval", "os.chdir", "os.umask", "os.putenv", "os.unsetenv", "os.environ.update",
+    "os.environ.setdefault", "os.environ.pop", "os.environ.clear", "os.nice", "os.setpriority", "locale.setlocale", "random.seed", "gc.disable", "gc.enable", "gc.set_threshold", "gc.freeze",
+    "warnings.simplefilter", "warnings.filterwarnings", "warnings.resetwarnings", "logging.basicConfig", "logging.disable", "logging.setLoggerClass",
+    "resource.setrlimit", "signal.signal", "signal.alarm", "signal.setitimer", "faulthandler.enable", "faulthandler.disable", "tracemalloc.start",
+    "decimal.setcontext", "time.tzset", "socket.setdefaulttimeout", "threading.stack_size", "threading.setprofile", "threading.settrace",
+    "ast.fix_missing_locations__never",
+} - {"ast.fix_missing_locations__never"}
+PROCESS_STATE_GETTERS = {"sys.getrecursionlimit", "sys.getswitchinterval", "sys.get_int_max_str_digits", "gc.isenabled", "gc.get_threshold", "locale.getlocale", "resource.getrlimit"}
+
+
+def is_process_setter(q: str) -> bool:
+    return q in PROCESS_STATE_SETTERS
+
+
 def classify_external(q: str) -> str:
+    if q in PROCESS_STATE_SETTERS and not q.startswith(("os.chdir", "os.putenv", "signal.", "socket.", "threading.")):
+        return "inert"
+    if q in PROCESS_STATE_GETTERS:
+        return "inert"
     if q.startswith("builtins."):
         name = q.split(".", 1)[1]
         head = name.split(".")[0]
